@@ -258,6 +258,20 @@ def run(ctx):
     quick = ctx.tier == "quick"
     corr = {}
     found_input = False
+    # ---- object reuse: one C++ builder / merger object asked repeatedly must answer like a fresh one (the model side is a pure
+    # function of the input, so the driver's answer is always "consistent"); the case line holds the input, the implementation's
+    # own verdict says which repeated query differed
+    rr = verif.run_stream(exe, "reuse", ctx.seed, (12000 if quick else 600000), ctx.work, shards=min(verif.NPROC, 8), driver_exe=DRV)
+    corr["reuse"] = {"cases": rr["cases"], "disagreements": len(rr["disagreements"]) + rr.get("more_disagreements", 0), "distribution": rr["stats"]}
+    if rr["error"]:
+        ctx.violation("stream reuse could not run: " + rr["error"], {"kind": "tie-broken", "correspondence": "reuse", "detail": rr["error"]}, nofail=True)
+    elif rr["disagreements"]:
+        idx, case, exp, got = rr["disagreements"][0]
+        found_input = True
+        ctx.violation("a reused LineMerger answers differently from a fresh one on the same lines: " + exp[:300],
+                      {"kind": "failing-input", "stream": "reuse", "case": case, "impl": exp, "model": got,
+                       "replay_cmd": "%s reuse-replay: regenerate with `%s reuse %d %d <out>`" % (exe, exe, ctx.seed, (12000 if quick else 600000))},
+                      signature={"stream": "reuse", "clause": " ".join(exp.split()[:2])})
     seen = []
     linref_bad = []
 
